@@ -9,16 +9,16 @@ open SqlLineage Graph
 
 /-- `add_read(value)` (holders.py:83‑87): READ tag, plus a HAS_ALIAS edge to the *string* `value.alias`
     (tables and subqueries have an alias attribute; paths do not) -/
-def addRead (g : LGraph) (d : DS) (alias : Option String) : LGraph :=
-  let g := g.setTag (.ds d) .read true
+def addRead (g : LGraph) (d : DS) (alias : Option String) (p : Option Payload := none) : LGraph :=
+  let g := g.setTag (.ds d) .read true p
   match alias with
   | some a => g.addEdge (.ds d) (.str a) .hasAlias
   | none => g
 
 /-- `add_write(value)` (holders.py:95) -/
-def addWrite (g : LGraph) (d : DS) : LGraph := g.setTag (.ds d) .write true
+def addWrite (g : LGraph) (d : DS) (p : Option Payload := none) : LGraph := g.setTag (.ds d) .write true p
 /-- `add_cte(value)` (holders.py:102) -/
-def addCte (g : LGraph) (d : DS) : LGraph := g.setTag (.ds d) .cte true
+def addCte (g : LGraph) (d : DS) (p : Option Payload := none) : LGraph := g.setTag (.ds d) .cte true p
 /-- `add_drop(value)` (holders.py:276) -/
 def addDrop (g : LGraph) (d : DS) : LGraph := g.setTag (.ds d) .drop true
 /-- `add_rename(src, tgt)` (holders.py:287) -/
